@@ -16,10 +16,13 @@ import (
 type StreamXPath struct {
 	Path string `json:"path"` // location path without the final predicate
 	Pred string `json:"pred"` // "" or the predicate, brackets included
+	// Lead / Trail: white space around the expression (legal in XPath; schema authors leave it in)
+	Lead  string `json:"lead,omitempty"`
+	Trail string `json:"trail,omitempty"`
 }
 
 // String is the xpath as handed to the reader / written into FINAL_OUTPUT.
-func (x StreamXPath) String() string { return x.Path + x.Pred }
+func (x StreamXPath) String() string { return x.Lead + x.Path + x.Pred + x.Trail }
 
 // StreamXPathOpts tunes DrawStreamXPath.
 type StreamXPathOpts struct {
@@ -203,6 +206,27 @@ func DrawStreamXPath(t *rapid.T, targets []StreamTarget, o StreamXPathOpts) Stre
 		} else {
 			x.Pred = rapid.SampledFrom(XMLStreamPreds).Draw(t, "pred")
 		}
+	}
+	// the same location path in another notation (unabbreviated axes, white space): equal by the XPath grammar
+	switch rapid.IntRange(0, 15).Draw(t, "notation") {
+	case 0:
+		x.Path = strings.ReplaceAll(x.Path, "//", "/descendant::")
+	case 1:
+		x.Path = strings.ReplaceAll(x.Path, "//", "/descendant-or-self::node()/")
+	case 2:
+		steps := strings.Split(x.Path, "/")
+		for i, st := range steps {
+			if st != "" && !strings.Contains(st, "::") {
+				steps[i] = "child::" + st
+			}
+		}
+		x.Path = strings.Join(steps, "/")
+	case 3:
+		x.Trail = rapid.SampledFrom([]string{" ", "  ", "\t", "\n"}).Draw(t, "trail")
+	case 4:
+		x.Lead = rapid.SampledFrom([]string{" ", "\n "}).Draw(t, "lead")
+	case 5:
+		x.Lead, x.Trail = " ", " "
 	}
 	return x
 }
